@@ -258,6 +258,24 @@ func hostMutations(o proto4.Object, raw bool) []hostMut {
 		}}, hostMut{"revision-number", func(e *sim.Env, c *c10Rig, o proto4.Object, raw []byte) bool {
 			o.(*proto4.RPCLatestRevisionResponse).Contract.RevisionNumber += 5
 			return true
+		}}, hostMut{"made-up-contract-with-throwaway-keys", func(e *sim.Env, c *c10Rig, o proto4.Object, raw []byte) bool {
+			// a contract of the host's own making: both public keys replaced by
+			// keys the host holds, everything paid to the host, signed by both
+			m := o.(*proto4.RPCLatestRevisionResponse)
+			k1, k2 := types.NewPrivateKeyFromSeed(e.Bytes(32)), types.NewPrivateKeyFromSeed(e.Bytes(32))
+			m.Contract.HostPublicKey, m.Contract.RenterPublicKey = k1.PublicKey(), k2.PublicKey()
+			m.Contract.HostOutput.Value = m.Contract.HostOutput.Value.Add(m.Contract.RenterOutput.Value)
+			m.Contract.RenterOutput.Value = types.ZeroCurrency
+			m.Contract.RevisionNumber = types.MaxRevisionNumber - 1
+			sh := (consensus.State{}).ContractSigHash(m.Contract)
+			m.Contract.HostSignature, m.Contract.RenterSignature = k1.SignHash(sh), k2.SignHash(sh)
+			return true
+		}}, hostMut{"host-key-swapped-and-resigned", func(e *sim.Env, c *c10Rig, o proto4.Object, raw []byte) bool {
+			m := o.(*proto4.RPCLatestRevisionResponse)
+			k := types.NewPrivateKeyFromSeed(e.Bytes(32))
+			m.Contract.HostPublicKey = k.PublicKey()
+			m.Contract.HostSignature = k.SignHash((consensus.State{}).ContractSigHash(m.Contract))
+			return true
 		}})
 	case *proto4.RPCFormContractResponse:
 		ms = append(ms, hostMut{"host-inputs-dropped", func(e *sim.Env, c *c10Rig, o proto4.Object, raw []byte) bool {
